@@ -3,15 +3,15 @@
 package main
 
 import (
-	"syscall"
-	"errors"
 	"bytes"
 	"encoding/binary"
+	"errors"
 	"fmt"
 	"os"
 	"path/filepath"
 	"sort"
 	"strings"
+	"syscall"
 	"time"
 )
 
@@ -395,6 +395,21 @@ func c06Stream(o *out, r *rng, thorough bool) {
 		o.count("beyond-path-max")
 		runOne(t, []creq{{op: opOpenDir, path: deep}, {op: opReadDir}, {op: opOpenDir, path: deep}, {op: opReadDirEntry}, {op: opReadDirEntry},
 			{op: opReadDirEntry}, {op: opOpenDir, path: deep}, {op: opReadDirEntryV2}, {op: opReadDirEntryV2}, {op: opReadDirEntryV2}, {op: opGetDirSize, path: deep}}, "deep:list")
+	}
+	// directories with the setgid or the sticky bit (shared storage: chmod g+s, chmod +t) are directories like any other
+	{
+		t := &tree{}
+		t.add(tnode{path: "/", kind: 'd', mtime: genMtime(r)})
+		t.add(tnode{path: "/shared", kind: 'd', mtime: genMtime(r), mode: os.ModeSetgid})
+		t.add(tnode{path: "/shared/sub", kind: 'd', mtime: genMtime(r), mode: os.ModeSetgid | os.ModeSticky})
+		t.add(tnode{path: "/drop", kind: 'd', mtime: genMtime(r), mode: os.ModeSticky})
+		t.add(tnode{path: "/shared/a.bin", kind: 'f', size: 10, seed: 1, mtime: genMtime(r)})
+		t.add(tnode{path: "/shared/sub/b.bin", kind: 'f', size: 20, seed: 1, mtime: genMtime(r)})
+		t.add(tnode{path: "/drop/c.bin", kind: 'f', size: 30, seed: 1, mtime: genMtime(r)})
+		o.count("special-mode-directories")
+		runOne(t, []creq{{op: opOpenDir, path: "/shared"}, {op: opReadDir}, {op: opOpenDir, path: "/drop"}, {op: opReadDirEntry}, {op: opReadDirEntry},
+			{op: opOpenDir, path: "/shared/sub"}, {op: opReadDirEntryV2}, {op: opReadDirEntryV2}, {op: opStatFile, path: "/shared"}, {op: opStatFile, path: "/drop"},
+			{op: opGetDirSize, path: "/shared"}, {op: opGetDirSize, path: "/drop"}, {op: opGetDirSize, path: "/"}, {op: opOpenDir, path: "/"}, {op: opReadDir}}, "modes:setgid-sticky")
 	}
 	// links that do not resolve for other reasons than a missing target - a link to itself (ELOOP), a link whose
 	// target leads through a regular file (ENOTDIR) - are dangling links like any other: omitted from listings,
